@@ -43,6 +43,11 @@ pub(crate) struct Transactions {
 }
 
 impl Transactions {
+    #[cfg(feature = "ezk-verif")]
+    pub(crate) fn verif_len(&self) -> usize {
+        self.map.lock().len()
+    }
+
     pub(crate) fn get_handler<'a: 'k, 'k>(
         &'a self,
         endoint: &Endpoint,
